@@ -921,7 +921,7 @@ def cfg_name(c):
 
 
 # ---------------------------------------------------------------------- C10(d): crash, reconnect, re-send
-def check_C10(h, rng, tier):
+def check_C10(h, rng, tier, only=("claim", "release", "open", "close"), pid="C10"):
     """resume-equivalence.  Crash points: the `crash` events the generator placed, plus, for successfully
     answered claim/release/open/close commands of the history, a crash synthesised after each of their
     commits (k = 0 .. commits-1)."""
@@ -933,7 +933,7 @@ def check_C10(h, rng, tier):
     exp = WORLD.ticks(WORLD.TAP.CHANNEL_EXPIRATION_TIME)
     gen_c, syn_c = [], []
     for x in ctxs:
-        if x.kind != "cmd" or x.mtype not in ("claim", "release", "open", "close"):
+        if x.kind != "cmd" or x.mtype not in only:
             continue
         if x.c not in x.bound_pre or not isinstance(x.ev.get("_id"), int):
             continue
@@ -1029,11 +1029,24 @@ def check_C10(h, rng, tier):
                         % (x.mtype, k))
                 diff = {"part": "chan", "difference": describe_diff("chan", va, vb)}
         if what is not None:
-            d = detail("C10", what, cfg, seed, un, cr, [], ["chan"], opts, diff,
+            d = detail(pid, what, cfg, seed, un, cr, [], ["chan"], opts, diff,
                        extra={"base_is": "uncrashed", "variant_is": "crashed, reconnected, re-sent", "answer_ids": ["uncrashed", "resend"],
                               "final_ids": ["uncrashed", "resend"], "crash_after_commit": k})
             return d, nontrivial, stats
     return None, nontrivial, stats
+
+
+def check_C07(h, rng, tier):
+    """C07 across a crash: a claim or release cut short by a crash after any of its commits and re-sent by the
+    same side on a fresh connection ends in the same answer and the same stored state as the uncrashed command
+    (release is idempotent and completes: after the last release the nameplate is gone)"""
+    return check_C10(h, rng, tier, only=("claim", "release"), pid="C07")
+
+
+def check_C08(h, rng, tier):
+    """C08 across a crash: an open or close cut short by a crash after any of its commits and re-sent ends in the
+    same answer and stored state (close always completes: the last close deletes everything together)"""
+    return check_C10(h, rng, tier, only=("open", "close"), pid="C08")
 
 
 # ---------------------------------------------------------------------- C17: an erroneous command leaves the connection as it was
@@ -1136,6 +1149,8 @@ CHECKS = {
     "C17": (check_C17, [("discipline", 240), ("malformed", 160), ("core", 80)]),
     "C05": (check_C05, [("crowd", 240), ("kf", 60)]),
     "C06": (check_C06, [("two-app", 240), ("core", 80), ("sweep", 80), ("kf", 80)]),
+    "C07": (check_C07, [("session", 120), ("crash", 60), ("usage", 60)]),
+    "C08": (check_C08, [("session", 120), ("crash", 60), ("usage", 60)]),
 }
 
 
